@@ -39,7 +39,9 @@ def _hist_shard(args):
     rec = R.RawRecorder()
     traces, scripts = [], {}
     for tid, seed, prog, variant, nsteps, profile, mode in specs:
-        if mode == 'exec':
+        if mode == 'exec' and variant < 0:
+            src = R.INLINE_PROGRAMS[prog % len(R.INLINE_PROGRAMS)]  # as written: the layout is the point
+        elif mode == 'exec':
             progs = PROGRAMS + R.EXTRA_PROGRAMS
             src = layouts.variant(progs[prog % len(progs)], variant, seed)
         else:
@@ -197,7 +199,8 @@ def run(ctx):
                 'G: RawGen.tla case table (text x rectangle x replacement with the spec-computed expectation) executed '
                 'row by row on pfst, spec oracle cross-checked with ast.parse. '
                 'V: histories of consecutive raw edits (put_src(reparse) via any node, raw node replace with/without '
-                '`to`/`pars`, put_src(None)+reparse(), reparse() of nodes) on corpus programs x layout variants and on '
+                '`to`/`pars`, put_src(None)+reparse(), reparse() of nodes) on corpus programs x layout variants, on a '
+                'family of inline statements after multi-byte text that hold multi-line nodes, and on '
                 'Expression roots; every event validated by TLC (RawTrace). '
                 'distinct = distinct (outcome, edit class) pairs, the class being computed by the spec from logged facts')
     ctx.assumptions += ['projection (harness/proj.py), ast.parse in the mode of the root kind and tokenize are trusted',
@@ -257,6 +260,10 @@ def run(ctx):
     for n, steps, profile, base in plan:
         specs = history_specs(ctx, n, steps, profile, base)
         results += _pool_map(_hist_shard, shard(specs, 6 if ctx.quick else 12))
+    # inline statements after multi-byte text with multi-line nodes (first-line column correction of fst_raw)
+    n_inl, st_inl = (84, 5) if ctx.quick else (700, 12)
+    specs = [(sp[0], sp[1], sp[2], -1, sp[4], sp[5], sp[6]) for sp in history_specs(ctx, n_inl, st_inl, 'inline', 300_000)]
+    results += _pool_map(_hist_shard, shard(specs, 2 if ctx.quick else 6))
     for k, mode in enumerate(('eval',)):
         specs = history_specs(ctx, other, 5 if ctx.quick else 12, 'wild', 200_000 + k * 50_000, mode)
         results += _pool_map(_hist_shard, shard(specs, 1 if ctx.quick else 3))
